@@ -97,6 +97,9 @@ class Unit:
                 src = self.src(kv)
                 kind = 'struct' if 'struct' in kv else 'enum'
                 txt = type_text(src, kind, kv[kind], self.manifest)
+                if 'derive' in kv:
+                    # D2 exception: the named std derives of a field-less enum are kept (Copy semantics)
+                    txt = '#[derive(%s)]\n' % kv['derive'] + txt
                 if 'clone' in kv:
                     # so that `.clone()` inside outlined (external_body) expressions type-checks;
                     # the impl is outside verus!{} (external, never verified, never executed)
